@@ -158,6 +158,19 @@ def dict_by_key(fi: FuncInfo, key_text: str) -> Optional[Tuple[Dict[str, str], s
     return None
 
 
+def returned_mapping(fi: FuncInfo) -> Optional[Dict[str, str]]:
+    """The string-keyed dict display a function returns (`dict(k=v)` and `{"k": v}` are one canonical form; a
+    value built in a local and returned is followed): {key: value text}."""
+    from .shared import prov, returns_of
+
+    out = None
+    for r in returns_of(fi.node):
+        v = prov(fi.node, r.value) if r.value is not None else None
+        if isinstance(v, ast.Dict) and v.keys and all(isinstance(k, ast.Constant) and isinstance(k.value, str) for k in v.keys):
+            out = {k.value: ast.unparse(x) for k, x in zip(v.keys, v.values)}
+    return out
+
+
 def _k(e: ast.AST) -> str:
     if isinstance(e, ast.Constant):
         return str(e.value)
